@@ -44,6 +44,16 @@ pub fn universe(name: &str) -> Vec<Key> {
                 })
                 .collect()
         }
+        // clusters A (indices 0..23: 20 present in seed `ab20`, 4 absent), B (24..47, likewise) and
+        // two keys elsewhere (48, 49)
+        "AB" => {
+            let mut v: Vec<Key> = (0..24).map(|i| cluster_key(12, i)).collect();
+            v.extend((0..24).map(|i| util::flip_bit(&cluster_key(12, i), 0)));
+            let base = key_from_bits("0010010110", false);
+            v.push(base);
+            v.push(util::flip_bit(&base, 7));
+            v
+        }
         // four keys, for exhaustive single-batch enumeration
         "U4" => {
             let base = key_from_bits("1010010110", false);
@@ -241,6 +251,14 @@ pub fn seed_keys(name: &str) -> Vec<Key> {
                 k
             })
             .collect(),
+        // two stored cluster pages under different root children: A = 20 keys sharing 12 bits,
+        // B = the same keys with their first bit flipped
+        "ab20" => {
+            let mut v: Vec<Key> = (0..20).map(|i| cluster_key(12, i)).collect();
+            v.extend((0..20).map(|i| util::flip_bit(&cluster_key(12, i), 0)));
+            v.sort();
+            v
+        }
         n if n.starts_with("cl") => {
             // cl<p>x<n>: n cluster keys sharing p bits
             let rest = &n[2..];
